@@ -36,15 +36,15 @@ META = {
 
 
 def run(rep):
-    guarded_write(rep)
-    pairing_add(rep)
-    pairing_remove(rep)
-    prune_blocks(rep)
-    who_may_write(rep)
-    merge_copy(rep)
-    incidence(rep)
-    rxnside(rep)
-    mol_guards(rep)
+    rep.run(guarded_write)
+    rep.run(pairing_add)
+    rep.run(pairing_remove)
+    rep.run(prune_blocks)
+    rep.run(who_may_write)
+    rep.run(merge_copy)
+    rep.run(incidence)
+    rep.run(rxnside)
+    rep.run(mol_guards)
 
 
 # ------------------------------------------------------------------ O15.1
